@@ -473,7 +473,10 @@ class RTDCBase(abc.ABC):
                         # There might be a basin availability check going on
                         # somewhere, but we are not interested in it.
                         continue
-                    if bn.is_available():
+                    if bn.is_available() and bn.verify_basin():
+                        # (Remote basins are not verified when they are
+                        # retrieved. Do not offer the features of basins
+                        # whose measurement identifier does not match.)
                         features += bn.features
                 self._basins_features = sorted(set(features))
             else:
